@@ -65,6 +65,8 @@ func TestEngine(t *testing.T) {
 		engineTree(t, tr)
 	case "ctrl":
 		engineCtrl(t, tr)
+	case "lister":
+		engineLister(t, tr)
 	default:
 		t.Fatalf("unknown engine %q", *flagEngine)
 	}
